@@ -166,6 +166,15 @@ theorem doRejectSenders_ext {env : Env} {R : Rej} (l : List String) : ∀ {sy : 
       have h1 := gapStep_ext (env := env) recent h0.1 sc
       exact (h0.trans h1).trans (ih _ h1.1)
 
+theorem Ext.logAll {env : Env} {R : Rej} {sy : Sy} (h : Inv R sy) (es : List Ev)
+    (he : ∀ e ∈ es, Good env R e) : Ext env R sy (logAll sy es) :=
+  ⟨h, rfl, rfl, es, rfl, he⟩
+
+theorem good_race (env : Env) (R : Rej) (cs : List Chunk) : ∀ e ∈ cs.map Ev.raceChunk, Good env R e := by
+  intro e he
+  obtain ⟨c, _, rfl⟩ := List.mem_map.mp he
+  trivial
+
 theorem applyOne_ext {env : Env} {R : Rej} (c : Chunk) {sy : Sy} (sc : Script) (h : Inv R sy) :
     Ext env R sy (applyOne recent c sy sc).2.1 := by
   unfold applyOne
@@ -177,11 +186,13 @@ theorem applyOne_ext {env : Env} {R : Rej} (c : Chunk) {sy : Sy} (sc : Script) (
     have a2 := deliverAll_ext (env := env) recent v.pre a1.1
     split
     · exact a1.trans a2
-    · have a3 := doRefetch_ext (env := env) recent v.refetch sc1 a2.1
+    · have ar := Ext.logAll (env := env) a2.1 ((racing v).map .raceChunk) (good_race env R _)
+      have a3 := doRefetch_ext (env := env) recent v.refetch sc1 ar.1
       have a4 := doRejectSenders_ext (env := env) recent v.rejectSenders
-        (doRefetch recent v.refetch (deliverAll recent (log sy
-          (.apply c.index (c.body.getD []) c.sender v.result v.refetch v.rejectSenders)) v.pre) sc1).2 a3.1
-      exact ((a1.trans a2).trans a3).trans a4
+        (doRefetch recent v.refetch (logAll (deliverAll recent (log sy
+          (.apply c.index (c.body.getD []) c.sender v.result v.refetch v.rejectSenders)) v.pre)
+          ((racing v).map .raceChunk)) sc1).2 a3.1
+      exact (((a1.trans a2).trans ar).trans a3).trans a4
 
 theorem applyChunks_ext {env : Env} {R : Rej} (snap : Snapshot) : ∀ (fuel : Nat) {sy : Sy} (sc : Script),
     Inv R sy → Ext env R sy (applyChunks recent snap fuel sy sc).2.1 := by
